@@ -1133,6 +1133,12 @@ def mk_minmax(name: str, args) -> tuple:
     for v in sorted(flat, key=_key):
         if v not in uniq:
             uniq.append(v)
+    # a length / count is never negative: max(0, len(x)) = len(x), min(0, len(x)) = 0
+    if len(uniq) == 2 and ZERO in uniq:
+        other = uniq[0] if uniq[1] == ZERO else uniq[1]
+        ao = single_atom(other)
+        if ao is not None and ao[0] == "call" and ao[1] == "len":
+            return other if name == "max" else ZERO
     if len(uniq) == 1:
         return uniq[0]
     return atom_poly(("call", name, tuple(uniq)))
